@@ -240,6 +240,7 @@ async fn run_admin(a: &Args, m: &mut mon::Mon) {
                     if ca != db {
                         if let Some(lev) = scen::setup_leveraged(&mut w, m, &mut r, g, s.liquidator, ca, db, 0.9).await {
                             if a.prop == "C12" {
+                                scen::whale_deleverage(&mut w, m, &mut r, g, s.liquidator, ca, db).await;
                                 scen::scale_price_any(&mut w, ca, 0.7).await;
                                 scen::deleverage(&mut w, m, &mut r, &lev, g).await;
                                 if r.gen_bool(0.4) {
